@@ -705,10 +705,55 @@ fn fault_input_layer(col: &Collector) {
     col.layer("I-inputs on which reads fail", n, true, json!({"layouts": ["dir", "dir file", "file dir", "file dir file", "dir dir", "joined = dir"], "statements": stmts}));
 }
 
+/// L: follow mode (child processes, 30 s limit): statements with LIMIT 0 / 1 / 2 end by themselves after the writer
+/// has appended its lines; every statement over hostile lines ends without a panic when the writer stops
+fn follow_layer(col: &Collector) {
+    let def = "CREATE TABLE t('k=(\\\\w+)' => k TEXT, 'v=(-?\\\\d+)' => v INT, 'iv=(\\\\S+)' => iv INTERVAL);";
+    let lines = ["k=a v=1", "k=b v=9223372036854775807", "zzz", "k=a v=-1 iv=2562047788015:0:0", "", "k=c v=2 iv=-2562047788015:0:0"];
+    let stmts = ["SELECT k, v FROM t", "SELECT v + 1 FROM t", "SELECT k, SUM(v), COUNT(*) FROM t GROUP BY k", "SELECT iv + iv FROM t", "SELECT DISTINCT k FROM t", "SELECT input FROM t WHERE v / 0 = 1", "SELECT k, SUM(iv) FROM t GROUP BY k"];
+    let mut cases: Vec<String> = Vec::new();
+    for s in stmts {
+        cases.push(s.to_string());
+        for n in [0, 1, 2] {
+            cases.push(format!("{} LIMIT {}", s, n));
+        }
+    }
+    let chunks: Vec<Vec<u8>> = lines.iter().map(|l| format!("{}\n", l).into_bytes()).collect();
+    par_for(cases.len() as u64, |i| {
+        let text = &cases[i as usize];
+        col.eval(1);
+        col.nontrivial(h64(&("L", text)));
+        // LIMIT n with at least n rows in the input: the writer stays after its last append and the program must end by itself
+        let self_ending = text.contains("LIMIT") && !text.contains("GROUP BY") && !text.contains("v / 0");
+        let (_delivered, end, ok) = crate::checks::c10::follow_child_def(true, b"", &chunks, text, if self_ending { -2 } else { -1 }, Some(def));
+        let dev = if end == "timeout" {
+            Some("hang:follow mode did not end within 30 s".to_string())
+        } else if end.starts_with("panic") {
+            Some(format!("panic:{}", msg_class(&end)))
+        } else if !ok && end.is_empty() {
+            Some("child-died".to_string())
+        } else {
+            None
+        };
+        if let Some(d) = dev {
+            col.fail(fail(
+                format!("follow:{}:{}", d.split(':').next().unwrap_or(""), if text.contains("LIMIT 0") { "limit-0" } else if text.contains("LIMIT") { "limit" } else { "no-limit" }),
+                format!("follow mode `{}` over {:?}: {} (end marker {:?})", text, lines, d, end),
+                json!({"layer": "L", "statement": text}),
+                json!("ends with a result or an error"),
+                json!(end),
+                i,
+            ));
+        }
+    });
+    col.layer("L-follow mode ends", cases.len() as u64, true, json!({"statements": stmts, "limits": ["none", 0, 1, 2]}));
+}
+
 pub fn run(ctx: &Ctx) -> i32 {
     let col = Collector::new();
     let tables = sut::make_tables(DEF).expect("C09 definition");
     fault_input_layer(&col);
+    follow_layer(&col);
     join_layer(ctx, &col);
     wrap_layer(&col);
     parts_layer(&col);
@@ -736,6 +781,12 @@ pub fn run(ctx: &Ctx) -> i32 {
 pub fn replay(case: &J) -> Vec<Failure> {
     let tables = sut::make_tables(DEF).unwrap();
     match case["layer"].as_str() {
+        Some("L") => {
+            let col = Collector::new();
+            follow_layer(&col);
+            let f = col.failures.lock().unwrap();
+            f.values().flat_map(|v| v.iter().cloned()).filter(|f| f.case["statement"] == case["statement"]).collect()
+        }
         Some("I") => {
             let col = Collector::new();
             fault_input_layer(&col);
